@@ -40,6 +40,22 @@ def scratch():
     return _scratch
 
 
+def open_fds():
+    return set(int(n) for n in os.listdir('/proc/self/fd'))
+
+
+def close_fds_since(before):
+    """close descriptors the implementation opened and never closes (treadmill's Inotify / eventfd objects have no
+    finaliser): without this a long series of histories runs into the per-user inotify instance limit."""
+    import gc
+    gc.collect()
+    for fd in open_fds() - before:
+        try:
+            os.close(fd)
+        except OSError:
+            pass
+
+
 _lock_depth = 0
 
 
